@@ -104,6 +104,20 @@ def apply_op(op, t, x, ufunc):
     }[op]()
 
 
+def call_op(site, op, t, x, ufunc):
+    """apply_op on valid operands; a TypeError of the operator protocol itself (every operand returned NotImplemented) has
+    no frame inside the library but is the library declining valid operands, not a harness problem"""
+    try:
+        return apply_op(op, t, x, ufunc), None
+    except TypeError as e:
+        msg = str(e)
+        if "NotImplemented" in msg or "unsupported operand" in msg:
+            return None, Fail("EXC:TypeError", site + "@operator-dispatch", msg[:300])
+        return None, exc_fail(e, site)
+    except Exception as e:  # noqa: BLE001
+        return None, exc_fail(e, site)
+
+
 def np_op(op, a, x):
     return {"add": lambda: a + x, "radd": lambda: x + a, "sub": lambda: a - x, "rsub": lambda: x - a, "mul": lambda: a * x,
             "rmul": lambda: x * a, "div": lambda: a / x, "neg": lambda: -a}[op]()
@@ -116,7 +130,7 @@ def run_arith(case):
     if case["other"] == "tensor" and op in ("radd", "rsub"):
         raise Skip("both operands tensors: the left operand determines the index types, same as add/sub")
     site = f"tensor:{op}:{case['other']}" + (":ufunc" if case["ufunc"] else "")
-    res, f = call(site, apply_op, op, t, x, case["ufunc"])
+    res, f = call_op(site, op, t, x, case["ufunc"])
     if f:
         return [f]
     ck = Checker()
@@ -170,7 +184,7 @@ def run_point(case):
     op = case["op"]
     site = f"point:{op}:{'coll' if coll else 'single'}" + (":ufunc" if case["ufunc"] else "")
     x = q if op in ("add", "sub") else case["c"]
-    res, f = call(site, apply_op, op, p, x, case["ufunc"])
+    res, f = call_op(site, op, p, x, case["ufunc"])
     if f:
         return [f]
     ck = Checker()
@@ -304,7 +318,7 @@ def run_obj(case):
             raise Skip("covered by point law")
         off = np.array(case["off"][:d], dtype=float)
         x = Point(*off)
-        res, f = call(site, apply_op, op, o, x, case["ufunc"])
+        res, f = call_op(site, op, o, x, case["ufunc"])
         if f:
             return [f]
         sgn = 1 if op == "add" else -1
@@ -355,7 +369,7 @@ def run_obj(case):
         raise Skip("affine")
     if kind in ("point", "pointcoll", "segment", "polygon") and op == "rsub":
         site_exp = "affine-negation"
-    res, f = call(site, apply_op, op, o, x, case["ufunc"])
+    res, f = call_op(site, op, o, x, case["ufunc"])
     if f:
         return [f]
     exp = np_op(op, arr, x)
